@@ -580,7 +580,7 @@ func main() {
 	// ---------------- Gen.lean
 	var gb strings.Builder
 	gb.WriteString("/-\nGENERATED by harness/extract/codec from encoding/proto/proto.go — do not edit.\nEvery encodeX/decodeX translated from its Go body, the structural canonical forms, the tree\nprinters/readers of the protocol, and the round-trip / no-panic theorems of every codec pair.\n-/\nimport PV.C27.Hand\nnamespace PV.C27\nopen PV.C27.C\n\n")
-	gb.WriteString("set_option linter.unusedVariables false\n\n")
+	gb.WriteString("set_option linter.unusedVariables false\nset_option linter.unusedSimpArgs false\n\n")
 	forder := topoFuncs(fns, handModelled)
 	for _, n := range forder {
 		gb.WriteString(fns[n].text + "\n")
@@ -622,6 +622,7 @@ func main() {
 	}
 	emitDriverTable(&gb, marshal, encOf, decOf)
 	emitTheorems(&gb, fns, forder)
+	emitMessageTheorems(&gb, encOf, decOf)
 	gb.WriteString("end PV.C27\n")
 	if err := os.WriteFile(*out, []byte(gb.String()), 0o644); err != nil {
 		die("%v", err)
@@ -749,7 +750,7 @@ func emitDriverTable(sb *strings.Builder, marshal []string, encOf, decOf [][2]st
 		dec[p[0]] = p[1]
 	}
 	sb.WriteString("/-! ## Driver entry: Serializer.Marshal then Serializer.Unmarshal into a fresh value -/\n\n")
-	sb.WriteString("def showOutcome {α : Type} (f : α → Tree) : Outcome α → String\n  | .ok v => (f v).show\n  | .error (.panic s) => \"panic:\" ++ s\n  | .error (.error _) => \"err:decode\"\n\n")
+	sb.WriteString("def showOutcome {α : Type} (f : α → Tree) : Outcome α → String\n  | .ok v => (f v).show\n  | .error (.panic _) => \"panic:decode\"\n  | .error (.error _) => \"err:decode\"\n\n")
 	sb.WriteString("/-- (model output, spec output) for message type `name` and the value described by `t`. -/\n")
 	sb.WriteString("def roundTrip (name : String) (t : Tree) : Option (String × String) :=\n")
 	for _, p := range encOf {
@@ -807,4 +808,44 @@ func emitDriverTable(sb *strings.Builder, marshal []string, encOf, decOf [][2]st
 
 func emitTheorems(sb *strings.Builder, fns map[string]*leanFn, order []string) {
 	emitTheoremsImpl(sb, fns, order)
+}
+
+
+// emitMessageTheorems: one round-trip and one no-panic theorem per message type of
+// Serializer.Marshal / Unmarshal (the dispatch tables), as corollaries of the codec-pair lemmas.
+func emitMessageTheorems(sb *strings.Builder, encOf, decOf [][2]string) {
+	dec := map[string]string{}
+	for _, p := range decOf {
+		dec[p[0]] = p[1]
+	}
+	sb.WriteString("/-! ## Per message type of Serializer.Marshal / Serializer.Unmarshal\n\n")
+	sb.WriteString("`Unmarshal(Marshal(v))` into a fresh value, with the protobuf wire layer taken as the identity on\nthe model's representation (nil and empty repeated fields are the same list). -/\n\n")
+	for _, p := range encOf {
+		t, e := p[0], p[1]
+		d, ok := dec[t]
+		if !ok {
+			continue
+		}
+		ei, di := fnInfo[e], fnInfo[d]
+		if ei.monadic {
+			continue // QueryResponse: Props.lean
+		}
+		encArg := "v"
+		if strings.HasPrefix(leanType(ei.sig.params[0].typ), "(Option") {
+			encArg = "(some v)"
+		}
+		encRes, _ := leanResult(ei)
+		decArg := "(" + e + " " + encArg + ")"
+		if !strings.HasPrefix(encRes, "(Option") && strings.HasPrefix(leanType(di.sig.params[0].typ), "(Option") {
+			decArg = "(some " + decArg + ")"
+		}
+		fmt.Fprintf(sb, "theorem C27_%s (v : P.%s) : %s %s ({} : P.%s) = .ok (canon_%s true v) := by\n  first | exact rt_%s v _ | exact rt_%s v\n\n",
+			t, t, d, decArg, t, t, d, d)
+		it := di.sig.params[0].typ
+		if it.kind == "ptr" {
+			it = it.elem
+		}
+		fmt.Fprintf(sb, "theorem C27_total_%s (pb : I.%s) (m : P.%s) : NoPanic (%s (some pb) m) := by\n  first | exact total_%s pb m | exact total_%s (some pb) m\n\n",
+			t, it.name, t, d, d, d)
+	}
 }
